@@ -430,8 +430,8 @@ pub fn run(run: &mut Run) {
     run.rule = "generated samples and pairs (f32/f64) x power-of-two exponents clamped to the range in which scaling is exact x shifts on the scale of the spread x permutations x confidences, for arithmetic, paired, unpaired, geometric and harmonic intervals; all permutations of samples of 3..6 values; non-trivial = e != 0, non-identity permutation or k != 0 on non-constant data".into();
     crate::meanref::selftest_into(run);
     let (cases, shards, max_n) = match run.tier {
-        crate::engine::Tier::Quick => (8_000u32, 16usize, 600usize),
-        crate::engine::Tier::Thorough => (160_000, 64, 3000),
+        crate::engine::Tier::Quick => (32_000u32, 32usize, 600usize),
+        crate::engine::Tier::Thorough => (1_600_000, 256, 3000),
     };
     let seed = run.seed_for("random", 0);
     run.par(shards, |shard, obs| {
@@ -444,7 +444,7 @@ pub fn run(run: &mut Run) {
         let vals: Vec<f64> = raw.iter().map(|&r| { let v = kappa + r as f64 / 65536.0; if f32_ { (v as f32) as f64 } else { v } }).collect();
         PermCase { f32: f32_, values: crate::fl::xs(&vals), conf }
     });
-    run.prop("all_permutations", run.tier.pick(600, 12_000), s, perm_case);
+    run.prop("all_permutations", run.tier.pick(3_000, 120_000), s, perm_case);
     for c in ["scaling/arithmetic/bit-exact", "scaling/paired/bit-exact", "scaling/unpaired/bit-exact", "scaling/harmonic", "scaling/geometric", "negation/bit-exact", "reorder/non-identity", "shift/checked", "reorder/all-permutations", "f32/two", "f32/upper", "f64/lower"] {
         run.require_class(c);
     }
